@@ -14,6 +14,7 @@ import NV.C06.Invariant
 import NV.C06.Counters
 import NV.C06.Strings
 import NV.C06.Spec
+import NV.C06.Oracle
 
 namespace NV.C06
 
@@ -459,6 +460,48 @@ theorem unreferenced_is_deallocated (ops : List Op) (s : St) (h : run St.init op
     simp only [Bool.false_eq_true, if_false] at i
     have := i.2 two_pow_W_pos
     omega
+
+/-! ### the per-value clauses of the specification oracle hold on the model's own states
+
+Clause-level part of the top statement `judge (model trace) = []`: the oracle compares every printed counter with
+`holders` (its own count over roots, values in transit and the items of existing containers).  On every state the model
+reaches these comparisons succeed: `DeadEmpty` (run_DE) gives `holders = H`, the counting invariant does the rest.
+What is still missing for the full statement is the simulation between the oracle's graph machine (`gstep` + `collect`)
+and the counting machine (`mstep`), i.e. that both are in the same state after every operation. -/
+
+/-- clause `ref-mismatch`: the counter the model prints for a live non-string value is the number of holders the
+    oracle counts (holders fitting the counter) -/
+theorem oracle_ref_clause (ops : List Op) (s : St) (h : run St.init ops = .ok s) (fit : FitsRun St.init ops)
+    (c : Nat) (cell : Cell) (hc : s.heap[c]? = some cell) (hl : cell.live = true) (hk : cell.kind.isStr = false)
+    (hlt : H s c < 2 ^ W) : cell.ref = holders s c := by
+  rw [holders_eq_H s (run_DE ops St.init s h DE_init) c]
+  exact ((ref_eq_holders ops s h fit c cell hc hl hk).2 hlt).1
+
+/-- clause `freed-while-held`: a value the model prints as freed (`x`) has no holder in the oracle's count -/
+theorem oracle_freed_clause (ops : List Op) (s : St) (h : run St.init ops = .ok s) (fit : FitsRun St.init ops)
+    (c : Nat) (cell : Cell) (hc : s.heap[c]? = some cell) (hl : cell.live = false) : holders s c = 0 := by
+  rw [holders_eq_H s (run_DE ops St.init s h DE_init) c]
+  exact no_free_while_held ops s h fit c cell hc hl
+
+/-- clause `leak cell=`: a non-string value without holders in the oracle's count is printed as freed -/
+theorem oracle_leak_clause (ops : List Op) (s : St) (h : run St.init ops = .ok s) (fit : FitsRun St.init ops)
+    (c : Nat) (cell : Cell) (hc : s.heap[c]? = some cell) (hk : cell.kind.isStr = false) (h0 : holders s c = 0) :
+    cell.live = false := by
+  rw [holders_eq_H s (run_DE ops St.init s h DE_init) c] at h0
+  exact unreferenced_is_deallocated ops s h fit c cell hc hk h0
+
+/-- the three clauses for strings, without any hypothesis on the number of holders: freed ⇒ no holder; live ⇒ the
+    printed counter is 0 (immortal: exempt in the oracle) or the oracle's number of holders -/
+theorem oracle_string_clauses (ops : List Op) (s : St) (h : run St.init ops = .ok s)
+    (c : Nat) (cell : Cell) (hc : s.heap[c]? = some cell) (hk : cell.kind.isStr = true) :
+    (cell.live = false → holders s c = 0) ∧ (cell.live = true → cell.ref = 0 ∨ cell.ref = holders s c) := by
+  rw [holders_eq_H s (run_DE ops St.init s h DE_init) c]
+  have := string_cells_never_freed_while_held ops s h c cell hc hk
+  exact ⟨this.1, fun hl => (this.2 hl).elim Or.inl (fun x => Or.inr x.1)⟩
+
+/-- non-vacuity: the oracle's count on a model state with shared values -/
+example : ∃ s, run St.init [.newarr 0 2, .assign 1 0, .newmap 2, .mset 2 0 0, .free 1] = .ok s ∧ holders s 2 = 3 ∧ H s 2 = 3 := by
+  refine ⟨_, rfl, ?_, ?_⟩ <;> decide
 
 /-- non-vacuity: a history that shares one array between a variable, a container, a mapping, an object variable,
     a function pointer, a pending call_out and a sentence, and then releases everything -/
